@@ -532,6 +532,63 @@ func (rs *refSource) expand(items []refItem, depth int, maxDepth *int) ([]refIte
 	return out, nil
 }
 
+// macroIOModes: does some macro that moves data to or from a port with the pseudo-instruction mov (whose
+// meaning depends on the io mode of the section it is expanded in) get expanded in sections of different
+// io modes? Every section of the file counts, run by a CP or not.
+func (rs *refSource) macroIOModes() bool {
+	var movIO func(m *refMacro, depth int) bool
+	movIO = func(m *refMacro, depth int) bool {
+		for _, it := range m.Items {
+			if it.Kind != itInstr {
+				continue
+			}
+			if it.Op == "mov" {
+				for _, a := range it.Args {
+					if _, ok := parsePort(a, 'i'); ok {
+						return true
+					}
+					if _, ok := parsePort(a, 'o'); ok {
+						return true
+					}
+				}
+			}
+			if in, ok := rs.Macros[it.Op]; ok && depth < maxMacroDepth && movIO(in, depth+1) {
+				return true
+			}
+		}
+		return false
+	}
+	modes := map[string]map[string]bool{}
+	var walk func(items []refItem, mode string, depth int)
+	walk = func(items []refItem, mode string, depth int) {
+		for _, it := range items {
+			if it.Kind != itInstr {
+				continue
+			}
+			if m, ok := rs.Macros[it.Op]; ok && depth < maxMacroDepth {
+				if modes[m.Name] == nil {
+					modes[m.Name] = map[string]bool{}
+				}
+				modes[m.Name][mode] = true
+				walk(m.Items, mode, depth+1)
+			}
+		}
+	}
+	for _, sec := range rs.Sections {
+		mode := sec.IOMode
+		if mode == "" {
+			mode = rs.IOMode
+		}
+		walk(sec.Items, mode, 0)
+	}
+	for name, ms := range modes {
+		if len(ms) > 1 && movIO(rs.Macros[name], 0) {
+			return true
+		}
+	}
+	return false
+}
+
 // static features of a section as written (before expansion) that matter for triage
 func (rs *refSource) sectionFeatures(sec *refSection, feat map[string]bool) {
 	isUse := func(it refItem) bool {
@@ -755,6 +812,10 @@ func (rs *refSource) compile(secName string, lenient bool) (*refProg, int, error
 				}
 				if v, k, ok := parseLiteral(a[1]); ok {
 					in.Op, in.Imm, in.Lit = "rset", v, k
+					rs.Feat["mov-literal"] = true
+					if v >= 32 {
+						rs.Feat["mov-literal>=32"] = true
+					}
 					break
 				}
 				e = unsupported("line %d: mov operand %q", it.Line, a[1])
@@ -1122,6 +1183,15 @@ func (n *refNet) run(in [][]uint64, rounds, cap int) *refResult {
 // wiring returns the bonds the source declares, each as an unordered pair in the machine's
 // endpoint names (i0, o0, p0i1, p2o0), sorted. Used only by the triage of a multi-CP mismatch.
 func (n *refNet) wiring() []string {
+	// the assembler numbers the processors in the byte order of their names (templateresolver.go sorts the cpdefs)
+	rank := make([]int, len(n.Src.CPs))
+	for i, a := range n.Src.CPs {
+		for _, b := range n.Src.CPs {
+			if b.Name < a.Name {
+				rank[i]++
+			}
+		}
+	}
 	name := func(e endpoint, src bool) string {
 		switch {
 		case e.CP < 0 && src:
@@ -1129,9 +1199,9 @@ func (n *refNet) wiring() []string {
 		case e.CP < 0:
 			return fmt.Sprintf("o%d", e.Port)
 		case src:
-			return fmt.Sprintf("p%do%d", e.CP, e.Port)
+			return fmt.Sprintf("p%do%d", rank[e.CP], e.Port)
 		}
-		return fmt.Sprintf("p%di%d", e.CP, e.Port)
+		return fmt.Sprintf("p%di%d", rank[e.CP], e.Port)
 	}
 	var r []string
 	for _, c := range n.Chans {
